@@ -596,6 +596,7 @@ pub fn c14_subs() -> Vec<Box<dyn Sub>> {
             strat: Box::new(|| arb_bytes().boxed()),
             body: Box::new(bytes_body),
             guard_death: true,
+            max_shrink: 4096,
         }),
         Box::new(Check {
             name: "scale_faulted",
@@ -604,6 +605,7 @@ pub fn c14_subs() -> Vec<Box<dyn Sub>> {
             strat: Box::new(|| (reg_wild(), vec(fault(), 0..4)).prop_map(|(m, faults)| FaultCase { m, faults }).boxed()),
             body: Box::new(fault_body),
             guard_death: true,
+            max_shrink: 4096,
         }),
         Box::new(Check {
             name: "json_arbitrary",
@@ -612,6 +614,7 @@ pub fn c14_subs() -> Vec<Box<dyn Sub>> {
             strat: Box::new(|| arb_json_text().boxed()),
             body: Box::new(json_text_body),
             guard_death: true,
+            max_shrink: 4096,
         }),
         Box::new(Check {
             name: "json_faulted",
@@ -620,6 +623,7 @@ pub fn c14_subs() -> Vec<Box<dyn Sub>> {
             strat: Box::new(|| (reg_wild(), vec(jfault(), 1..4)).prop_map(|(m, faults)| JsonFaultCase { m, faults }).boxed()),
             body: Box::new(json_fault_body),
             guard_death: true,
+            max_shrink: 4096,
         }),
     ]
 }
